@@ -179,6 +179,27 @@ impl Scenario for C08Images {
         let n = base_bytes(&base).len();
         let on = other.as_ref().map_or(0, |o| base_bytes(o).len());
         let sectors = n.div_ceil(SECTOR).max(1);
+        let literal_positions: Vec<usize> = {
+            let b = base_bytes(&base);
+            let mut v = vec![];
+            let mut i = 0;
+            while i < b.len() {
+                if b[i] == b'\'' || b[i] == b'"' {
+                    let q = b[i];
+                    if let Some(len) = b[i + 1..].iter().take(80).position(|c| *c == q) {
+                        for k in i + 1..i + 1 + len {
+                            v.push(k);
+                        }
+                        i += len + 2;
+                        continue;
+                    }
+                } else if b[i].is_ascii_digit() {
+                    v.push(i);
+                }
+                i += 1;
+            }
+            v
+        };
         let mut f = root.fork("faults");
         let mut cases = vec![];
         let k = match tier {
@@ -199,7 +220,12 @@ impl Scenario for C08Images {
                     let at = if f.chance(1, 4) { n.saturating_sub(f.below(12)) } else { f.below(n + 1) };
                     Image::Truncate { at }
                 }
-                5 | 6 => Image::BitFlip { at: f.below(n.max(1)), bit: f.below(8) as u8 },
+                5 | 6 => {
+                    // half of the flips land inside quoted literals ('0101'B, 'AF'H, "text") and
+                    // numbers, where one changed digit can turn a literal into an ill-formed one
+                    let at = if !literal_positions.is_empty() && f.chance(1, 2) { *f.pick(&literal_positions) } else { f.below(n.max(1)) };
+                    Image::BitFlip { at, bit: f.below(8) as u8 }
+                }
                 7 => Image::SectorZero { sector: f.below(sectors) },
                 8 => Image::SectorDup { sector: f.below(sectors) },
                 9 => Image::SectorSwap { a: f.below(sectors), b: f.below(sectors) },
